@@ -34,6 +34,10 @@ def _expr(rng: Rng, avail: list[str]) -> str:
 
 def gen_script(rng: Rng, tag: str) -> dict:
     """Returns {'src': ..., 'fns': [...], 'tag': ...}."""
+    # function names are unique per module only: a third of the scripts use the same few names as every other such script
+    # (model_fn / helper / leaf_x ...), so that anything keyed by a function's name or qualified name across translations shows
+    if rng.sub("common-names").chance(0.33):
+        tag = "common"
     ver = rng.choice([15, 16, 17, 18, 19, 20, 21, 22, 23])
     nvars = rng.weighted([(1, 2), (2, 4), (3, 4), (4, 3), (5, 4), (6, 4), (7, 2), (8, 2), (9, 2)])
     vs = _names(rng, nvars)
